@@ -120,29 +120,52 @@ example : pastedText "say \"hi\" ??/\n".toList = "say \\\"hi\\\" \\?\\?/\\n".toL
 
 /-! ## 2. Names and scopes -/
 
-/-- **mangled_fresh**: a name produced by `make_mangled_name` is `name_k` and is none of the reserved names
-    (member names of the entity, names already used in the `detail` namespace, every public name) -/
+/-- **names_generator_shape**: the four naming decisions of names_generator.hpp have, on this run, the shape the
+    theorems below are about (`Extracted.Templates.publicTypeSite`, `inlineTypeSite`, `messageSite`,
+    `groupSite`): which sets each `if` looks the name (and `<name>_entry`) up in, which sets the mangling loop
+    avoids, and which names each branch records in `mangled_type_names` / `mangled_message_names` — a mangled
+    group records the MANGLED name and the MANGLED entry name, a plain group its own two names — and the bodies
+    of `make_mangled_name` / `make_mangled_group_name` / `make_entry_name` are the modelled loops.  The model
+    (`stepType`, `stepMessage`) follows the extracted sites, whatever they are; a change to one of the
+    `insert` / lookup sites flips this obligation while the driver then predicts what the changed generator
+    declares -/
+theorem names_generator_shape : sitesExpected = true := by decide
+
+/-- **mangled_fresh**: the mangling loops are the ones found in names_generator.hpp on this run, and a name they
+    produce is `name_k` and is none of the reserved names (member names of the entity, names already used in the
+    `detail` namespace, every public name) -/
 theorem mangled_fresh (name : String) (reserved : List String) (m : String) (h : mangle name reserved = some m) :
-    m ∉ reserved ∧ ∃ k, m = suffixed name k :=
-  ⟨mangle_fresh name reserved m h, mangleFrom_shape _ _ _ _ _ h⟩
+    Templates.mangleLoopsOk = true ∧ m ∉ reserved ∧ ∃ k, m = suffixed name k := by
+  refine ⟨?_, mangle_fresh name reserved m h, mangleFrom_shape _ _ _ _ _ h⟩
+  have := names_generator_shape
+  simp only [sitesExpected, Bool.and_eq_true] at this
+  exact this.1.1.1.1
 
 /-- the group variant: the mangled group name and its entry class name are both free -/
 theorem mangled_group_fresh (name : String) (reserved : List String) (m : String)
     (h : mangleGroup name reserved = some m) : m ∉ reserved ∧ entryName m ∉ reserved :=
   mangleGroup_fresh name reserved m h
 
-/-- **detail_types_distinct**: whatever the iteration order of `schema->types`, the classes and aliases the
-    generator puts into `S::detail::types` (every type defined inside a composite, every mangled public type)
-    and the tag structs of `S::detail::schema::types` that carry those names are pairwise distinct -/
+/-- **detail_types_distinct**: whatever the iteration order of `schema->types`, running the generator as the
+    extracted sites describe it, the names recorded in `mangled_type_names` are pairwise distinct and so are the
+    names of the classes and aliases it declares in `S::detail::types` (every type defined inside a composite,
+    every mangled public type) and of the tag structs of `S::detail::schema::types` that carry those names -/
 theorem detail_types_distinct (types : List Elem) (st : NState) (h : typeNames types = some st) :
-    st.mangled.Nodup :=
-  runTypes_nodup _ _ _ _ h List.nodup_nil
+    st.mangled.Nodup ∧ st.declared.Nodup :=
+  runTypes_nodup names_generator_shape _ _ _ _ h List.nodup_nil List.nodup_nil (fun _ hx => by cases hx)
 
-/-- **detail_messages_distinct**: group classes, entry classes and mangled message classes of
-    `S::detail::messages` are pairwise distinct -/
+/-- **detail_messages_distinct**: the names of the group classes, entry classes and mangled message classes
+    declared in `S::detail::messages` — under the names the site-driven generator chose, e.g. `legs_0` and
+    `legs_0_entry` for a group `legs` that has a member `legs` — are pairwise distinct, whatever later groups or
+    messages are called -/
 theorem detail_messages_distinct (msgs : List MessageDef) (st : MState) (h : messageNames msgs = some st) :
-    st.mangled.Nodup :=
-  runMessages_nodup _ _ _ _ h List.nodup_nil
+    st.mangled.Nodup ∧ st.declared.Nodup :=
+  runMessages_nodup names_generator_shape _ _ _ _ h List.nodup_nil List.nodup_nil (fun _ hx => by cases hx)
+
+/-- **no_duplicate_declarations**: for EVERY schema the model predicts no class declared twice in a `detail`
+    namespace -/
+theorem no_duplicate_declarations (s : SchemaDef) : duplicateProblems s = [] :=
+  duplicateProblems_nil names_generator_shape s
 
 /-- **class_name_not_member**: the implementation name chosen for a type is not the name of one of its
     members (enumerator, choice, composite element, `min_value`…), so no generated class or tag struct has a
@@ -152,13 +175,26 @@ theorem class_name_not_member (nm : List String) (st st' : NState) (ev : TEvent)
     (h : stepType nm st ev = some st') :
     ∃ a, st'.out = st.out ++ [a] ∧ a.impl ∉ ev.members ∧
       (a.impl ≠ a.name → a.impl ∉ st.mangled ∧ a.impl ∉ nm ∧ ∃ k, a.impl = suffixed a.name k) :=
-  stepType_decision nm st st' ev h
+  stepType_decision names_generator_shape nm st st' ev h
 
 /-- the same for message classes, group classes and entry classes against the members of their level -/
 theorem level_class_name_not_member (nm : List String) (st st' : MState) (ev : MEvent)
     (h : stepMessage nm st ev = some st') :
     ∃ a, st'.out = st.out ++ [a] ∧ a.impl ∉ ev.members ∧ (a.isMessage = false → a.entry ∉ ev.members) :=
-  stepMessage_decision nm st st' ev h
+  stepMessage_decision names_generator_shape nm st st' ev h
+
+/-- what a changed site does: were the mangled branch of the group decision to record `<group>_entry` instead
+    of the entry name it chose (the shape `[.mangledName, .ownEntry]`), a group `legs` with a member `legs`
+    followed by a group `legs_0_entry` would declare `legs_0_entry` twice — the generic step predicts it -/
+example :
+    let site : Templates.InsertSite :=
+      ⟨[(.mangled, .own), (.mangled, .ownEntry), (.members, .ownEntry), (.members, .own)],
+       [.members, .mangled, .nonMangled], [.mangledName, .ownEntry], [.own, .ownEntry]⟩
+    let m1 := (mangleGroup "legs" (siteReserved site ["legs"] [] ["M"])).getD ""
+    let taken := siteInsert site.insMangled "legs" m1 []
+    m1 = "legs_0" ∧ siteCond site [] taken ["M"] "legs_0_entry" = false ∧
+      siteCond Templates.groupSite [] (siteInsert Templates.groupSite.insMangled "legs" m1 []) ["M"] "legs_0_entry" = true := by
+  decide +kernel
 
 /-- C++ keywords and alternative tokens (C++23, [lex.key]), written down independently of sbeppc -/
 def cxxKeywords : List String :=
@@ -236,7 +272,7 @@ theorem scope_conflict_free_partial (s : SchemaDef) (ha : Accepted s) (ds : List
     simp only [Bool.and_eq_true] at ha
     exact ha.1.1.1.1
   have hnil := nameProblems_nil s ds hds h1 h2
-  refine ⟨⟨fun st h => detail_types_distinct _ st h, fun st h => detail_messages_distinct _ st h,
+  refine ⟨⟨fun st h => (detail_types_distinct _ st h).1, fun st h => (detail_messages_distinct _ st h).1,
     keywords_rejected s hn, ?_⟩, hnil⟩
   rw [hnil]; rfl
 
